@@ -11,6 +11,12 @@ CLAIMED = {
    text="Generated hostile values (quotes, doubled quotes, backslashes, comment openers, dollar quotes, backticks, control and non-BMP runes, CR/LF/U+2028, U+FFFD, up to 64 KiB) x 116 query templates over literal / LIKE / property-key / kind / variable / alias / parameter positions incl. shortestPath and allShortestPaths (whose values are materialised into SQL text handed to the harness functions). Each query is translated with the hostile value and with a benign twin; the PostgreSQL token sequences must be equal except at the slot, which must be ONE string / identifier token whose decoded value equals what the Cypher text denotes (computed independently); the rule recurses into SQL carried in strings; parameters must pass through unchanged; the real pgx.NamedArgs rewriter must see exactly the same placeholders; the FromCypher comment header must lex as comments only.",
    note="PostgreSQL's lexer is modelled by sqltok (written from scan.l, standard_conforming_strings=on; UESCAPE and non-UTF-8 encodings not modelled); invalid UTF-8 and NUL are outside the domain; unescaped %/_ inside the value's own span are C01 territory; four open findings excluded by construction (alias case folding, 63-byte alias truncation, backticked kind names, LIKE on function operands).",
    design="§4 C04"),
+ "C05": dict(
+   category="exploration",
+   technique="property-based testing (rapid): inputs from grammar derivations, corpus mutations, typed queries and builder programs; metamorphic oracles (repeat, deep-clone differential, marker non-interference, concurrent vs sequential) plus an input-immutability invariant (address-level reflection snapshots); race detector in the thorough tier",
+   text="ASTs from six sources (random Cypher.g4 derivations, corpus mutations incl. literal->$param with fresh and bound-variable names, typed generated queries, every shipped query, builder programs through package query, cypher model constructors) x parameter maps (31 supported and 25 unsupported value kinds, names that do / do not occur) x kind-mapper knowledge. Each case is decided by: no panic; marker interleaving A,B,A (no value of one call appears in another call's result, results stable); 5 repeated Translate+Translated calls byte-identical with equal parameter maps and stable error text; translation of an independent deep clone gives the same result; FromCypher; 8 goroutines on the shared AST, caller's map and one kind mapper; address-level snapshots of the AST and the parameter map compared after every phase.",
+   note="Schedules are sampled (8 goroutines; -race in thorough only); totality is established only for explored shapes (10 panic/impurity roots found and repaired); a hang would surface as a timeout = inconclusive, not as a violation; a write into spare slice capacity of a caller's slice shows only under -race.",
+   design="§4 C05"),
  "C07": dict(
    category="exploration",
    technique="property-based testing (rapid): grammar-derivation, corpus-mutation and sibling generators; round-trip (emit-parse fixed point) and metamorphic (content-token multiset, single-token sibling) oracles",
